@@ -1253,18 +1253,30 @@ func retResult(ret *ssa.Return, idx int) ssa.Value {
 // reachDefs returns the values of the stores to local alloc a that reach instruction at (flow-sensitive,
 // ignoring writes through closures). ok=false if some path reaches the function entry without a store.
 func reachDefs(a *ssa.Alloc, at ssa.Instruction) (vals []ssa.Value, ok bool) {
+	return reachStores(at, func(st *ssa.Store) (ssa.Value, bool) {
+		if st.Addr == ssa.Value(a) {
+			return st.Val, true
+		}
+		return nil, false
+	})
+}
+
+// reachStores: the values produced by match for the last matching store on every path to at.
+func reachStores(at ssa.Instruction, match func(*ssa.Store) (ssa.Value, bool)) (vals []ssa.Value, ok bool) {
 	ok = true
 	seenB := map[*ssa.BasicBlock]bool{}
 	seenV := map[ssa.Value]bool{}
 	var fromEnd func(b *ssa.BasicBlock)
 	scan := func(b *ssa.BasicBlock, from int) bool {
 		for k := from; k >= 0; k-- {
-			if st, isS := b.Instrs[k].(*ssa.Store); isS && st.Addr == ssa.Value(a) {
-				if !seenV[st.Val] {
-					seenV[st.Val] = true
-					vals = append(vals, st.Val)
+			if st, isS := b.Instrs[k].(*ssa.Store); isS {
+				if v, hit := match(st); hit {
+					if !seenV[v] {
+						seenV[v] = true
+						vals = append(vals, v)
+					}
+					return true
 				}
-				return true
 			}
 		}
 		return false
@@ -1303,6 +1315,16 @@ func resolveLocal(v ssa.Value) ssa.Value {
 	for depth := 0; depth < 16; depth++ {
 		ld, ok := v.(*ssa.UnOp)
 		if !ok || ld.Op != token.MUL {
+			return v
+		}
+		if fa, isFA := ld.X.(*ssa.FieldAddr); isFA {
+			// a field of a local struct variable that never escapes: scalar replacement
+			if a, isA := fa.X.(*ssa.Alloc); isA && privateStruct(a) {
+				if fv, okF := reachFieldDef(a, fa.Field, ld, 0); okF {
+					v = fv
+					continue
+				}
+			}
 			return v
 		}
 		a, ok := ld.X.(*ssa.Alloc)
@@ -1533,4 +1555,88 @@ func (p *Prog) structBuilds(fn *ssa.Function, depth int) []structBuild {
 		out = append(out, *byBase[b])
 	}
 	return out
+}
+
+var privStructMemo = map[*ssa.Alloc]bool{}
+
+// privateStruct: a is a local struct variable whose address is used only to address its fields (which are only stored and
+// loaded) and to load or store the whole value — it never escapes, so its fields behave like local variables.
+func privateStruct(a *ssa.Alloc) bool {
+	if v, ok := privStructMemo[a]; ok {
+		return v
+	}
+	res := func() bool {
+		pt, ok := a.Type().Underlying().(*types.Pointer)
+		if !ok {
+			return false
+		}
+		if _, ok := pt.Elem().Underlying().(*types.Struct); !ok {
+			return false
+		}
+		for _, ref := range *a.Referrers() {
+			switch r := ref.(type) {
+			case *ssa.FieldAddr:
+				for _, r2 := range *r.Referrers() {
+					switch x := r2.(type) {
+					case *ssa.Store:
+						if x.Addr != ssa.Value(r) {
+							return false
+						}
+					case *ssa.UnOp:
+						if x.Op != token.MUL {
+							return false
+						}
+					case *ssa.DebugRef:
+					default:
+						return false
+					}
+				}
+			case *ssa.UnOp:
+				if r.Op != token.MUL {
+					return false
+				}
+			case *ssa.Store:
+				if r.Addr != ssa.Value(a) {
+					return false
+				}
+			case *ssa.DebugRef:
+			default:
+				return false
+			}
+		}
+		return true
+	}()
+	privStructMemo[a] = res
+	return res
+}
+
+// reachFieldDef: the single value that field fld of private struct a holds at instruction at.
+func reachFieldDef(a *ssa.Alloc, fld int, at ssa.Instruction, depth int) (ssa.Value, bool) {
+	if depth > 4 {
+		return nil, false
+	}
+	wholeVal := map[ssa.Value]bool{}
+	vals, ok := reachStores(at, func(st *ssa.Store) (ssa.Value, bool) {
+		if fa, isFA := st.Addr.(*ssa.FieldAddr); isFA && fa.X == ssa.Value(a) && fa.Field == fld {
+			return st.Val, true
+		}
+		if st.Addr == ssa.Value(a) {
+			wholeVal[st.Val] = true // whole-value store
+			return st.Val, true
+		}
+		return nil, false
+	})
+	if !ok || len(vals) != 1 {
+		return nil, false
+	}
+	if wholeVal[vals[0]] {
+		// the struct was assigned as a whole: follow a copy of another private struct
+		if ld, isLd := vals[0].(*ssa.UnOp); isLd && ld.Op == token.MUL {
+			if b, isA := ld.X.(*ssa.Alloc); isA && privateStruct(b) {
+				return reachFieldDef(b, fld, ld, depth+1)
+			}
+		}
+		return nil, false
+	}
+	return vals[0], true
 }
